@@ -139,6 +139,10 @@ def run(chk):
         ok = f is not None and any(isinstance(n, ast.Call) and last_attr(n.func) == upd and n.args and isinstance(n.args[0], ast.Call) and dotted(n.args[0].func) == "time.perf_counter" for n in walk_body(f))
         chk.ob("O18.1", f"{cb} records perf_counter() through {upd}", ok, f if f is not None else RCH, "")
 
+    from rules.C04 import trace_hook_table
+
+    trace_hook_table(chk, "O18.1", repo)
+
     # ---- O18.2 isolation ---------------------------------------------------------------------------------------------------------------------
     chk.rule("O18.2", "all timing state is reached through one ContextVar; its only set installs a fresh dict; reset(token) on exit before propagation; propagation only when the token had an old value; "
              "no module- or class-level mutable timing state", 6,
@@ -171,6 +175,14 @@ def run(chk):
     resets = [c for c in source.calls_in(ex) if last_attr(c.func) == "restore_context"]
     ok = len(resets) == 1 and u(resets[0].args[0]) == "self.token" and not guards(resets[0]) and all(g.dominated_by_nodes(g.node_of(p), [g.node_of(resets[0])]) for p in props)
     chk.ob("O18.2", "context restored (reset(token)) unconditionally before propagation", ok, resets[0] if resets else ex, "")
+    ok = bool(resets) and g.must_pass(g.entry, [g.node_of(r_) for r_ in resets])
+    pth = None
+    if resets and not ok:
+        p_ = g.find_path(g.entry, g.exit, avoid=[g.node_of(r_) for r_ in resets])
+        pth = g.describe_path(p_) if p_ else None
+    chk.ob("O18.2", "every normal exit of __exit__ has restored the enclosing context", ok, resets[0] if resets else ex,
+           "" if ok else "a path leaves the context manager without reset(token): later requests of the task are booked on the stale nested context", path=pth,
+           key=f"{_C}:RequestContextManager.__exit__:restore-on-every-exit")
     rc = hm.get("restore_context")
     ok = rc is not None and any(isinstance(n, ast.Call) and last_attr(n.func) == "reset" and last_attr(n.func.value) == cv and u(n.args[0]) == params_of(rc)[-1] for n in walk_body(rc))
     chk.ob("O18.2", "restore_context resets the ContextVar with the token", ok, rc if rc is not None else RCH, "")
